@@ -329,6 +329,10 @@ class Check:
                 self.known_hits.append(key)
                 print(f"KNOWN-FINDING: property={self.pid} {self.findings.known[key]['what']}", flush=True)
             return False
+        if any(v["key"] == key for v in self.violations[-200:]) or key in getattr(self, "_vkeys", set()):
+            self.cov["repeated_reports_of_one_key"] = self.cov.get("repeated_reports_of_one_key", 0) + 1
+            return True
+        self._vkeys = getattr(self, "_vkeys", set()) | {key}
         d = os.path.join(REPLAYS, self.pid)
         os.makedirs(d, exist_ok=True)
         path = os.path.join(d, f"{key}.json")
